@@ -125,6 +125,19 @@ def main(argv):
     else:
         errs = [l for l in build_log.split('\n') if 'error' in l][:8]
         proof_problems.append('lake build PyIkev2.Props.%s failed: %s' % (prop_id, ' | '.join(errs)))
+    recheck = None
+    if build_ok and tier == 'thorough':
+        # independent re-check of the compiled module (and everything it imports) by the toolchain's leanchecker
+        import subprocess
+        try:
+            p = subprocess.run(['lake', 'env', 'leanchecker', 'PyIkev2.Props.%s' % prop_id], cwd=common.LEAN,
+                               capture_output=True, text=True, timeout=1500)
+            recheck = 'leanchecker PyIkev2.Props.%s: exit %d' % (prop_id, p.returncode)
+            if p.returncode != 0:
+                proof_problems.append('leanchecker rejects PyIkev2.Props.%s: %s' % (prop_id, (p.stdout + p.stderr)[-400:]))
+        except subprocess.TimeoutExpired:
+            print('time-out in leanchecker')
+            return 2
     lean_files = getattr(mod, 'LEAN_FILES', []) + ['PyIkev2/Props/%s.lean' % prop_id]
     scan = source_scan(lean_files)
     if scan:
@@ -205,6 +218,8 @@ def main(argv):
         'proof_problems': proof_problems,
         'known_findings_hit': sorted(hit_known),
     }
+    if recheck:
+        coverage['independent_recheck'] = recheck
     coverage.update(res.extra)
     write_evidence(prop_id, tier, seed, coverage, time.time() - t0, len(new_fail),
                    getattr(mod, 'ASSUMPTIONS', []) + res.assumptions)
